@@ -17,20 +17,37 @@ from vlib import coq_z, coq_list
 PID = "C09"
 FINDING = "C09-string-firstlast-alias"
 FINDING_CT = "C09-firstlast-chunk-time"
+FINDING_ML = "C09-memtable-last-time"
 FN = {"count": 0, "sum": 1, "min": 2, "max": 3, "first": 4, "last": 5}
 STRING_FIELD = 3
 
 
-def in_signature(c):
-    """first()/last() of a string field evaluated on the row path (statement not served by the statistics shortcut)"""
-    return c["fn"] in ("first", "last") and c["field"] == STRING_FIELD and (c["hint"] or c["filter"] or c["bucket"] > 0)
+def explain(c, colgroup, open_ids):
+    """which open finding explains the failing result `col:group` of check c (None = unexplained)"""
+    ci, grp = colgroup.split(":", 1)
+    call = c["calls"][int(ci)]
+    host = grp.split("/")[0]
+    rowpath = c["hint"] or c["filter"] or c["bucket"] > 0
+    # first()/last() of a string field evaluated on the row path
+    if FINDING in open_ids and call["fn"] in ("first", "last") and call["field"] == STRING_FIELD and rowpath:
+        return FINDING
+    # first()/last() served by the shortcut where the range enters / leaves a multi-segment chunk
+    if FINDING_CT in open_ids and call["fn"] in ("first", "last") and c["preagg"] and host in (c.get("sig_chunk_time") or []):
+        return FINDING_CT
+    # last() of a multi-call shortcut statement where the memtable has a later row carrying only another selected field
+    if FINDING_ML in open_ids and call["fn"] == "last" and c["preagg"] and ("%s:%s" % (ci, host)) in (c.get("sig_mem_last") or []):
+        return FINDING_ML
+    return None
 
 
-def in_signature_ct(c):
-    """first()/last() served by the statistics shortcut, and every failing group belongs to a series for which some file
-    holds a chunk of >= 2 segments that the range enters after its first row (first) / leaves before its last row (last)"""
-    return (c["fn"] in ("first", "last") and c["preagg"] and bool(c.get("fail_groups"))
-            and all(g.split("/")[0] in (c.get("sig_chunk_time") or []) for g in c["fail_groups"]))
+TEXT = {
+    FINDING: "first()/last() of a string field on the row path (hint / field filter / time bucket) returns a string other than the one "
+             "the plain select shows at that time (aliased buffer)",
+    FINDING_CT: "first()/last() served from stored statistics takes the time of the whole chunk instead of the segment's, so a value of "
+                "another container inside the range loses (or wins) wrongly",
+    FINDING_ML: "last() in a multi-aggregate statement served from statistics: the memtable's last value is stamped with the time of its last "
+                "ROW (which may carry only another field), so an older memtable value beats a newer value stored in a file",
+}
 
 
 def main(ck):
@@ -41,6 +58,7 @@ def main(ck):
         "mean is checked as sum and count (the planner rewrites mean into sum/count)",
         "max-rows-per-segment = 8 so that series span several segments; values are small integers / k/4 floats (exact sums)",
         "queries group by host (one series per group), so first/last have no cross-series time ties",
+        "statements carry 1-3 aggregates, mostly over different fields (mean as the sum/count pair); every column is compared on its own",
         "index visibility, compaction thresholds as in C02",
     ]
     ck.cov["trusted_base"] = ["Coq 8.16.1 kernel + vm_compute (case evaluation, Examples, refutation witness)",
@@ -83,7 +101,7 @@ def main(ck):
             for gi, g in enumerate(c["groups"] or []):
                 rows = coq_list(["(%s, %s)" % (coq_z(r["t"]), coq_z(r["v"])) for r in (g["rows"] or [])])
                 got = "None" if g["null"] else "(Some %s)" % coq_z(g["v"])
-                terms.append("(%s, %s, %s)" % (coq_z(FN[c["fn"]]), rows, got))
+                terms.append("(%s, %s, %s)" % (coq_z(FN[g["fn"]]), rows, got))
                 groups.append((hi, ci, gi, g["want_ok"]))
     model_bad = set()
     if ok and terms:
@@ -107,37 +125,42 @@ def main(ck):
         model_bad = None
 
     # ---- verdicts
-    finding = ck.match_finding(FINDING)
-    finding_ct = ck.match_finding(FINDING_CT)
-    known_ct, eligible_ct = 0, 0
-    viol, known, checks, compared, skipped = 0, 0, 0, 0, 0
-    modes = {}
-    eligible_sig = 0
+    # findings of this property that are in the per-property fragment but not (yet) merged into known_findings.json
+    frag = os.path.join(ck.verif, "props", PID, "findings.json")
+    if os.path.exists(frag):
+        have = {f["id"] for f in ck.findings}
+        ck.findings += [f for f in json.load(open(frag))["findings"] if f["property"] == PID and f["id"] not in have]
+    open_ids = {fid for fid in (FINDING, FINDING_CT, FINDING_ML) if ck.match_finding(fid) is not None}
+    viol, checks, compared, skipped = 0, 0, 0, 0
+    known = {FINDING: 0, FINDING_CT: 0, FINDING_ML: 0}
+    eligible = {FINDING: 0, FINDING_CT: 0, FINDING_ML: 0}
+    modes, ncalls = {}, {}
     for hi, h in enumerate(hs):
         for c in h.get("checks") or []:
             checks += 1
             compared += bool(c["compared"])
             skipped += bool(c.get("skipped"))
             mode = "hint" if c["hint"] else "filter" if c["filter"] else "bucket" if c["bucket"] else "shortcut" if c["preagg"] else "rows"
-            modes["%s/%s" % (c["fn"], mode)] = modes.get("%s/%s" % (c["fn"], mode), 0) + 1
-            eligible_sig += in_signature(c)
-            eligible_ct += bool(c["fn"] in ("first", "last") and c["preagg"] and c.get("sig_chunk_time"))
+            ncalls[str(len(c["calls"]))] = ncalls.get(str(len(c["calls"])), 0) + 1
+            for call in c["calls"]:
+                modes["%s/%s" % (call["fn"], mode)] = modes.get("%s/%s" % (call["fn"], mode), 0) + 1
+                if call["fn"] in ("first", "last") and call["field"] == STRING_FIELD and mode in ("hint", "filter", "bucket"):
+                    eligible[FINDING] += 1
+            eligible[FINDING_CT] += bool(c["preagg"] and c.get("sig_chunk_time"))
+            eligible[FINDING_ML] += bool(c["preagg"] and c.get("sig_mem_last"))
             if not c.get("fail"):
                 continue
-            if in_signature_ct(c) and finding_ct is not None:
-                known_ct += 1
-                ck.known_finding(FINDING_CT, "first()/last() served from stored statistics takes the time of the whole chunk instead of the "
-                                 "segment's, so a value of another container inside the range loses (or wins) wrongly")
-                continue
-            if in_signature(c) and finding is not None and not c["fail"].endswith("error"):
-                known += 1
-                ck.known_finding(FINDING, "first()/last() of a string field on the row path (hint / field filter / time bucket) returns a "
-                                 "string other than the one the plain select shows at that time (aliased buffer)")
+            why = [explain(c, cg, open_ids) for cg in (c.get("fail_cols") or [])] if not c["fail"].endswith("error") else [None]
+            if why and all(w is not None for w in why):
+                for w in set(why):
+                    known[w] += 1
+                    ck.known_finding(w, TEXT[w])
             else:
                 viol += 1
                 if viol <= 3:
                     slim = {k: h[k] for k in ("case", "nser", "nodup_mode", "ops")}
-                    ck.violation({"kind": "direct-oracle", "what": c["fail"], "check": c, "history": slim, "dup_history": h["dup"]})
+                    ck.violation({"kind": "direct-oracle", "what": c["fail"], "check": c, "history": slim, "dup_history": h["dup"],
+                                  "explained": why})
     if model_bad is not None:
         for idx, (hi, ci, gi, want_ok) in enumerate(groups):
             bad = idx in model_bad
@@ -147,10 +170,9 @@ def main(ck):
                                  % (hs[hi]["case"], c["sql"], c["groups"][gi]["group"]))
                 ck.nofail_detail = {"kind": "correspondence", "check": c, "group": c["groups"][gi]}
                 break
-    if finding_ct is not None and known_ct == 0 and eligible_ct > 0:
-        ck.notes.append("open finding %s did not reproduce on %d eligible queries: stale (tree looks repaired)" % (FINDING_CT, eligible_ct))
-    if finding is not None and known == 0 and eligible_sig > 0:
-        ck.notes.append("open finding %s did not reproduce on %d eligible queries: stale (tree looks repaired)" % (FINDING, eligible_sig))
+    for fid in open_ids:
+        if known[fid] == 0 and eligible[fid] > 0:
+            ck.notes.append("open finding %s did not reproduce on %d eligible queries: stale (tree looks repaired)" % (fid, eligible[fid]))
 
     # ---- coverage
     nontriv = set()
@@ -173,5 +195,6 @@ def main(ck):
     ck.cov["histories_with_cross_generation_dup"] = sum(1 for h in hs if h.get("dup"))
     ck.cov["model_groups_evaluated"] = len(groups)
     ck.cov["traces_validated_against_impl"] = len(groups) - (len(model_bad) if model_bad else 0)
-    ck.cov["known_finding_queries"] = {FINDING: known, FINDING_CT: known_ct}
+    ck.cov["known_finding_queries"] = known
+    ck.cov["calls_per_statement"] = ncalls
     ck.cov["samples"] = [c["sql"] for h in hs[:3] for c in (h.get("checks") or [])[:2]]
